@@ -43,11 +43,11 @@ CHECKS = {
     note=TB + "; platform TLS semantics; registration is not synchronised (a data race between a registering and a violating thread is outside the property as stated); inheritance by later-created threads is left open as in the property"),
  "C16": dict(
     engine="derive",
-    technique="SSA value-identity chain over the call graph of qsort_s.c/bsearch_s.c: every comparator call uses the function's own comparator/context parameters, forwarded unchanged from the exported entry; inductive-invariant check of bsearch_s's search loop in the element-index domain (pointer arithmetic base + size*k divided by the symbolic element size; Fourier-Motzkin)",
+    technique="SSA value-identity chain over the call graph of qsort_s.c/bsearch_s.c: every comparator call uses the function's own comparator/context parameters, forwarded unchanged from the exported entry; inductive-invariant check of bsearch_s's search loop in the element-index domain (pointer arithmetic base + size*k divided by the symbolic element size; Fourier-Motzkin); operand-width rule on the bit-scan intrinsics of qsort_s.c (no truncation between the heap shape word and cttz)",
     category="other",
-    text="Decides the clause 'the caller's context (and key) reaches every comparison' for all arrays and comparators: it is a property of the shape of the 7 comparator call sites and the internal calls leading to them. For bsearch_s, 'compares only elements of the array and stays inside nmemb*size' is decided: 0 <= B, B + n <= nmemb is inductive over both paths of the search loop and the element handed to the comparator has an index in [0, nmemb). Sortedness, permutation, search completeness and qsort_s's staying inside nmemb*size are not decided (non-linear Leonardo-heap arithmetic).",
+    text="Decides the clause 'the caller's context (and key) reaches every comparison' for all arrays and comparators: it is a property of the shape of the 7 comparator call sites and the internal calls leading to them. For bsearch_s, 'compares only elements of the array and stays inside nmemb*size' is decided: 0 <= B, B + n <= nmemb is inductive over both paths of the search loop and the element handed to the comparator has an index in [0, nmemb). For qsort_s a necessary condition of 'every element count' is decided: the trailing-zero scans that navigate the Leonardo heap see the whole shape word. Sortedness, permutation, search completeness and qsort_s's staying inside nmemb*size are not decided (non-linear Leonardo-heap arithmetic).",
     design_ref="DESIGN.md §4 C16",
-    note=TB + "; only the context/key-forwarding clause is claimed"),
+    note=TB + "; only the context/key-forwarding clause, bsearch_s bounds and the bit-scan width are claimed"),
  "C18": dict(
     engine="derive",
     technique="volatile/barrier must-follow path rule over the IR of the 7 erase entry points and their primitives; byte-lane abstract interpretation of the fill word (which byte of the value parameter each stored byte holds); quotient/remainder agreement of the word/tail count split; thorough: static inspection of LTO-compiled client machine code (gcc-12, clang-14, -O0..-O3); erase-length clause (callee unit x length argument = element size x the entry point's own count)",
